@@ -14,7 +14,8 @@ git -C $WT apply $S/patch.diff 2>/dev/null || git -C $WT apply -3 $S/patch.diff 
 rm -rf $OUT; mkdir -p $OUT; cp /verif/known_findings.jsonl $OUT/
 cd /verif
 if [ "$PROP" = C20 ]; then
-  VERIF_KNOWN_FINDINGS=$OUT/known_findings.jsonl python3 routesim/check_c20.py --tier $TIER --module-path $WT/conf/route_control.py > $OUT/out.txt 2>&1; RC=$?
+  mkdir -p $OUT/replays $OUT/evidence
+  VERIF_DIR=$OUT VERIF_KNOWN_FINDINGS=$OUT/known_findings.jsonl python3 routesim/check_c20.py --tier $TIER --module-path $WT/conf/route_control.py > $OUT/out.txt 2>&1; RC=$?
 elif [ "$PROP" = C16 ]; then
   ST=$(VERIF_REPO=$WT tools/c16static.sh 2>>$OUT/build.log)
   D=$(VERIF_REPO=$WT ./build.sh plain 2>>$OUT/build.log | tail -1) || { echo "EVAL $ID: build failed (see $OUT/build.log)"; exit 2; }
@@ -25,7 +26,7 @@ else
   VERIF_DIR=$OUT VERIF_THOROUGH_SECS=$SECS $D/upfsim check -prop $PROP -tier $TIER > $OUT/out.txt 2>&1; RC=$?
 fi
 git -C $WT reset -q --hard; git -C $WT clean -qfd
-SIGS=$(grep 'signature:' $OUT/out.txt | sed 's/^ *signature: //' | head -8 | jq -R . | jq -sc .)
+SIGS=$(grep 'signature[:=]' $OUT/out.txt | sed 's/^ *signature[:=] *//' | head -8 | jq -R . | jq -sc .)
 python3 - "$S/meta.json" "$PROP" "$TIER" "$RC" "$SIGS" <<'PY'
 import json,sys
 p,prop,tier,rc,sigs=sys.argv[1:6]
